@@ -247,7 +247,7 @@ def _plan_round_trip(ctx, env, which, w, P, P2, rho, R, info, k):
         ctx.check(v1 == v2, "plan-validity-differs", f"plan {plan}: {v1} on the original problem, {v2} on the re-read problem")
         ctx.check((v1 == "VALID") == want_valid, "refsem-disagrees-with-validator",
                   f"harness self-check: R judges plan {plan} {'valid' if want_valid else 'invalid'}, the real validator says {v1}")
-        ctx.witness("plan-valid" if want_valid else "plan-invalid")
+        ctx.note("plan-valid" if want_valid else "plan-invalid", text)
 
 
 def h_rt(ctx, sk, k, pool, rows, schemes=None, readers=None, flags=None):
@@ -381,7 +381,7 @@ def _slots(act):
     return conds, effs
 
 
-def h_temporal(ctx, k, pool, schemes=None, variants=4):
+def h_temporal(ctx, k, pool, schemes=None, variants=4, rows=None):
     from unified_planning.model import DurativeAction
     from vf.refsem import Ref
 
@@ -391,6 +391,8 @@ def h_temporal(ctx, k, pool, schemes=None, variants=4):
     variant = ctx.choice("variant", variants)
     ni = ctx.choice("names", len(schemes))
     cv = ctx.choice("consts", len(pl))
+    if rows is not None:
+        ctx.assume([ni, cv] in rows)
     env = ctx.fresh_env()
     vals = tvio.leaf_values(cv, pl)
     g = _temporal(ctx, env, tvio.SCHEMES[schemes[ni]], vals, variant)
@@ -452,7 +454,6 @@ def h_temporal(ctx, k, pool, schemes=None, variants=4):
     ctx.forall(goal_build, None, "goal-differs", "goal verdict differs in some state" + text)
     _compare_metric(ctx, P, P2, rho, RR)
     ctx.witness("program")
-    ctx.witness("temporal")
 
 
 # ---------------------------------------------------------------------------------------------------------------
@@ -518,7 +519,8 @@ def shards(tier, seed):
             out.append(dict(name=f"sk{i:02d}-airaw", fn="h_rt", engine="direct", budget=120, query_timeout=60,
                             kwargs=dict(sk=dict(SKELETONS[i], ai_raw=True), k=2, pool="quick", rows=_rows(ns, ni, nc, 14), readers=["ai"])))
         out.append(dict(name="temporal", fn="h_temporal", engine="direct", budget=240, query_timeout=60,
-                        kwargs=dict(k=2, pool="quick", schemes=["plain", "upper", "pkw_t", "lsym"])))
+                        kwargs=dict(k=2, pool="quick", schemes=["plain", "upper", "pkw_t", "lsym"],
+                                    rows=[[i % 4, (2 * i + i // 4) % nc] for i in range(8)])))
         out.append(dict(name="env-readers", fn="h_env", engine="direct", budget=60, kwargs=dict(sk=SKELETONS[7])))
     else:
         nc = len(POOLS["thorough"])
